@@ -349,6 +349,170 @@ static void exploreOne(const uv::World& w, const std::string& histTmpl, vj::Resu
     res.sample("{\"world\": " + vj::q(w.spec) + ", \"history\": " + vj::q(historyStr(h)) + ", \"database_calls\": " + std::to_string(dry.total) + "}");
 }
 
+// ---------------------------------------------------------------------------
+// Wide builds: root <- mid-i <- leaf-i for i < K.  A build stores 2K+1 results, so
+// any scheme that commits "every so many results" (instead of once, together
+// with the epoch) gets its intermediate commits exercised.
+namespace fan {
+struct World { int K = 0; int version = 1; std::function<void(const std::string&)> sink; };
+static std::string leafVal(const World& w, int i) { return "L" + std::to_string(i) + "v" + std::to_string(w.version); }
+static std::string midVal(const World& w, int i) { return "M(" + leafVal(w, i) + ")"; }
+static std::string rootVal(const World& w) {
+  unsigned long long h = 1469598103934665603ull;
+  for (int i = 0; i < w.K; ++i) for (unsigned char c : midVal(w, i)) { h ^= c; h *= 1099511628211ull; }
+  return "R" + std::to_string(h);
+}
+struct FTask : public Task {
+  World& w; std::string key; std::vector<std::string> got;
+  FTask(World& w, const std::string& k) : w(w), key(k) {}
+  void start(TaskInterface ti) override {
+    if (key == "root") { got.resize(w.K); for (int i = 0; i < w.K; ++i) ti.request("mid-" + std::to_string(i), i); }
+    else if (key.compare(0, 4, "mid-") == 0) { got.resize(1); ti.request("leaf-" + key.substr(4), 0); }
+  }
+  void provideValue(TaskInterface, uintptr_t id, const KeyType&, const ValueType& v) override { got[id].assign(v.begin(), v.end()); }
+  void inputsAvailable(TaskInterface ti) override {
+    std::string v;
+    if (key == "root") {
+      unsigned long long h = 1469598103934665603ull;
+      for (auto& g : got) for (unsigned char c : g) { h ^= c; h *= 1099511628211ull; }
+      v = "R" + std::to_string(h);
+    } else if (key.compare(0, 4, "mid-") == 0) v = "M(" + got[0] + ")";
+    else v = leafVal(w, atoi(key.c_str() + 5));
+    ti.complete(ValueType(v.begin(), v.end()));
+  }
+};
+struct FRule : public Rule {
+  World& w;
+  FRule(World& w, const KeyType& k) : Rule(k), w(w) {}
+  Task* createTask(BuildEngine&) override { return new FTask(w, key.str()); }
+  bool isResultValid(BuildEngine&, const ValueType& v) override {
+    if (key.str().compare(0, 5, "leaf-") != 0) return true;
+    return std::string(v.begin(), v.end()) == leafVal(w, atoi(key.c_str() + 5));
+  }
+};
+struct FDelegate : public BuildEngineDelegate {
+  World& w; StubQueueDelegate qd; std::string errors; bool cycle = false;
+  explicit FDelegate(World& w) : w(w) {}
+  std::unique_ptr<Rule> lookupRule(const KeyType& k) override { return std::unique_ptr<Rule>(new FRule(w, k)); }
+  std::unique_ptr<basic::ExecutionQueue> createExecutionQueue() override { return std::unique_ptr<basic::ExecutionQueue>(new StubQueue(qd)); }
+  void cycleDetected(const std::vector<Rule*>&) override { cycle = true; }
+  void error(const Twine& m) override { errors += m.str(); }
+};
+// one process: attach the database, build root once
+static std::string buildOnce(World& w, const std::string& dbPath, std::string* err) {
+  FDelegate del(w);
+  BuildEngine engine(del);
+  std::string e;
+  auto inner = createSQLiteBuildDB(dbPath, 1, true, &e);
+  auto* rec = new RecordingDB(std::move(inner));
+  rec->onBeforeSet = [&w](const DBRecord& r) { if (w.sink) w.sink("R " + r.str()); };
+  if (!engine.attachDB(std::unique_ptr<BuildDB>(rec), &e)) { if (err) *err = "attach: " + e; return ""; }
+  const ValueType& v = engine.build("root");
+  if (err) *err = del.errors + (del.cycle ? " cycle" : "");
+  return std::string(v.begin(), v.end());
+}
+}  // namespace fan
+
+static void fanScenario(int K, vj::Result& res) {
+  std::string dir = g_root + "/fan";
+  std::string cmd = "rm -rf " + dir + " && mkdir -p " + dir;
+  std::string dbPath = dir + "/build.db", logPath = dir + ".log";
+  auto runChildFan = [&](int version, long killAt, long* total, int* exitCode) {
+    pid_t pid = fork();
+    if (pid == 0) {
+      int lfd = ::open(logPath.c_str(), O_WRONLY | O_CREAT | O_APPEND, 0600);
+      fan::World w;
+      w.K = K;
+      w.version = version;
+      w.sink = [lfd](const std::string& line) { std::string l = line + "\n"; (void)!::write(lfd, l.data(), l.size()); };
+      g_dbDir = dir + "/";
+      g_count = 0;
+      g_killAt = killAt;
+      g_counting = true;
+      std::string err;
+      std::string v = fan::buildOnce(w, dbPath, &err);
+      g_counting = false;
+      std::string t = "T " + std::to_string(g_count) + "\n";
+      (void)!::write(lfd, t.data(), t.size());
+      _exit(v == fan::rootVal(w) ? 0 : 9);
+    }
+    int st = 0;
+    waitpid(pid, &st, 0);
+    *exitCode = WIFEXITED(st) ? WEXITSTATUS(st) : 1000 + WTERMSIG(st);
+    if (total) {
+      *total = 0;
+      FILE* f = fopen(logPath.c_str(), "r");
+      char* line = nullptr; size_t cap = 0; ssize_t n;
+      while (f && (n = getline(&line, &cap, f)) > 0) if (line[0] == 'T') *total = atol(line + 2);
+      free(line);
+      if (f) fclose(f);
+    }
+  };
+  auto candidates = [&]() {
+    std::set<std::string> c;
+    FILE* f = fopen(logPath.c_str(), "r");
+    char* line = nullptr; size_t cap = 0; ssize_t n;
+    while (f && (n = getline(&line, &cap, f)) > 0) {
+      std::string l(line, (size_t)n);
+      if (!l.empty() && l.back() == '\n') l.pop_back();
+      if (l.compare(0, 2, "R ") == 0) c.insert(l.substr(2));
+    }
+    free(line);
+    if (f) fclose(f);
+    return c;
+  };
+  // dry run: how many database calls does the second (incremental) build make?
+  (void)system(cmd.c_str());
+  ::unlink(logPath.c_str());
+  long total = 0; int ec = 0;
+  runChildFan(1, -1, nullptr, &ec);
+  if (ec != 0) { fprintf(stderr, "crashx: fan build 1 failed (%d)\n", ec); exit(3); }
+  runChildFan(2, -1, &total, &ec);
+  if (ec != 0 || total <= 0) { fprintf(stderr, "crashx: fan dry run failed (%d)\n", ec); exit(3); }
+  res.maxOf("max_calls_per_history", total);
+  res.count("histories");
+  copyFile(dbPath, dir + "/after1.db");  // not the state after build 1: re-create below
+  for (long N = 1; N <= total; ++N) {
+    if ((int)(N % args.nshards) != args.shard) continue;
+    if (args.overBudget()) { res.exhaustive = false; res.count("budget_hit"); return; }
+    (void)system(cmd.c_str());
+    ::unlink(logPath.c_str());
+    runChildFan(1, -1, nullptr, &ec);
+    runChildFan(2, N, nullptr, &ec);
+    res.count("crash_points");
+    res.count("evaluations");
+    std::string spec = "@fan|" + std::to_string(K) + "|" + std::to_string(N);
+    std::string where = " | wide world root<-mid-i<-leaf-i, K=" + std::to_string(K) + ", second build (every leaf changed) killed before database call #" + std::to_string(N) + " of " + std::to_string(total);
+    if (ec != 137) { res.violate("C04.harness-kill-missed", "child exited " + std::to_string(ec) + where, spec); continue; }
+    DBDump dd = readDatabase(dbPath);
+    if (!dd.ok) { res.violate("C04.cannot-open-after-kill", "database cannot be opened by the next process: " + dd.error + where, spec); continue; }
+    auto cand = candidates();
+    int bad = 0;
+    for (auto& kv : dd.recs) {
+      const DBRecord& r = kv.second;
+      if ((r.builtAt > dd.epoch || r.computedAt > dd.epoch) && bad++ == 0)
+        res.violate("C04.result-epoch-beyond-stored-epoch", "stored epoch " + std::to_string(dd.epoch) + " is smaller than the epochs of " + r.str() + where, spec);
+      if (!cand.count(r.str())) res.violate("C04.stored-record-never-produced", "stored record [" + r.str() + "] is not one the engine handed to the database" + where, spec);
+    }
+    static std::set<std::string> distinct;
+    std::string snap = std::to_string(dd.epoch) + "/" + std::to_string(dd.recs.size());
+    for (auto& kv : dd.recs) snap += kv.second.builtAt == dd.epoch ? "n" : "o";
+    if (distinct.insert(snap).second) res.count("distinct_nontrivial");
+    // the next process continues with every leaf changed again
+    fan::World w3;
+    w3.K = K;
+    w3.version = 3;
+    std::string err;
+    std::string v = fan::buildOnce(w3, dbPath, &err);
+    res.count("continuations");
+    res.count("continuation_builds");
+    if (v != fan::rootVal(w3))
+      res.violate(v.empty() ? "C04.continuation-build-failed" : "C04.stale-after-recovery",
+                  "build continued from the recovered database returned '" + v + "', a clean build computes '" + fan::rootVal(w3) + "' " + err + where, spec);
+  }
+  res.sample("{\"world\": \"fan K=" + std::to_string(K) + "\", \"database_calls_in_killed_build\": " + std::to_string(total) + "}");
+}
+
 int main(int argc, char** argv) {
   args.parse(argc, argv);
   g_root = "/dev/shm/verif-crashx-" + std::to_string(getpid());
@@ -390,6 +554,7 @@ int main(int argc, char** argv) {
     return res.violations.empty() ? 0 : 1;
   }
 
+  fanScenario(T ? 700 : 300, res);
   int item = 0;
   for (int wi = 0; wi < nw; ++wi)
     for (int hi = 0; hi < nh; ++hi, ++item) {
